@@ -258,6 +258,8 @@ func runC19(c *core.Ctx) {
 	checkFullRead(c)
 	checkPoolAlias(c)
 	checkFrameReadExact(c)
+	checkExpressionFrameSet(c)
+	checkPooledBytesEscape(c)
 }
 
 // frameConstants: constants of type FrameType emitted by the encoder (stored into Frame.frameType) and
@@ -1320,4 +1322,203 @@ func checkFrameReadExact(c *core.Ctx) {
 	if n == 0 {
 		c.MissingAnchor("codec.readexact", "successful returns of Frame.Read")
 	}
+}
+
+// checkExpressionFrameSet (codec.exprset): the decoder infers the presence of an optional or left-hand expression by
+// peeking at the next frame and asking isExpressionFrame. That predicate and the dispatch of decodeExpression are two
+// tables of the same set - the frame types that start an expression. A type the dispatch decodes but the predicate
+// does not know makes every encoding fail in which such an expression stands where presence is inferred.
+func checkExpressionFrameSet(c *core.Ctx) {
+	prog := c.Prog
+	pred := prog.SSAFunc("ast/codec", "isExpressionFrame")
+	disp := prog.SSAFunc("ast/codec", "Decoder.decodeExpression")
+	if pred == nil || disp == nil {
+		c.MissingAnchor("codec.exprset", "ast/codec.isExpressionFrame / (*Decoder).decodeExpression")
+		return
+	}
+	typeConsts := func(fn *ssa.Function) map[int64]bool {
+		out := map[int64]bool{}
+		for _, b := range fn.Blocks {
+			for _, in := range b.Instrs {
+				bo, ok := in.(*ssa.BinOp)
+				if !ok || bo.Op != token.EQL {
+					continue
+				}
+				var other ssa.Value
+				var k int64
+				if v, ok := core.ConstIntValue(bo.Y); ok {
+					k, other = v, bo.X
+				} else if v, ok := core.ConstIntValue(bo.X); ok {
+					k, other = v, bo.Y
+				} else {
+					continue
+				}
+				if call, ok := other.(*ssa.Call); ok {
+					if cal := call.Common().StaticCallee(); cal != nil && cal.Name() == "Type" {
+						out[k] = true
+					}
+				}
+			}
+		}
+		return out
+	}
+	names := map[int64]string{}
+	if pk := prog.Pkg("ast/codec"); pk != nil {
+		for _, n := range pk.Types.Scope().Names() {
+			if k, ok := pk.Types.Scope().Lookup(n).(*types.Const); ok && core.NamedTypeName(k.Type()) == "FrameType" {
+				if v, ok := constant.Int64Val(k.Val()); ok {
+					names[v] = n
+				}
+			}
+		}
+	}
+	p, d := typeConsts(pred), typeConsts(disp)
+	if len(p) < 5 || len(d) < 5 {
+		c.MissingAnchor("codec.exprset", fmt.Sprintf("frame type comparisons (predicate %d, dispatch %d)", len(p), len(d)))
+		return
+	}
+	for k := range d {
+		key := "decodeExpression|" + names[k]
+		if p[k] {
+			c.Discharge("codec.exprset", key, pred.Pos(), "known to isExpressionFrame")
+		} else {
+			c.Report("codec.exprset", key, pred.Pos(), fmt.Sprintf("decodeExpression decodes %s but isExpressionFrame does not count it as an expression: wherever the decoder infers the presence of an expression by peeking (left operand of an infix expression, optional value of return / error / declare) a valid encoding with such an expression fails to decode", names[k]))
+		}
+	}
+	for k := range p {
+		if !d[k] {
+			c.Report("codec.exprset", "isExpressionFrame|"+names[k], pred.Pos(), fmt.Sprintf("isExpressionFrame counts %s as an expression but decodeExpression has no arm for it", names[k]))
+		}
+	}
+}
+
+// checkPooledBytesEscape (codec.poolescape): a buffer taken from a sync.Pool and put back (deferred Put) belongs to the
+// next caller once the function returns. A slice of its content - (*bytes.Buffer).Bytes(), or a reslicing of it -
+// must not be returned or stored: the next Get hands the same array out and overwrites what the caller still holds.
+// Module-wide: every function that calls Pool.Put on a value it obtained from Pool.Get.
+func checkPooledBytesEscape(c *core.Ctx) {
+	prog := c.Prog
+	n := 0
+	for _, fn := range prog.ModuleFuncs() {
+		var pooled []ssa.Value
+		puts := false
+		for _, b := range fn.Blocks {
+			for _, in := range b.Instrs {
+				cal := core.StaticCallee(in)
+				if cal == nil || cal.Pkg == nil || cal.Pkg.Pkg.Path() != "sync" || cal.Signature.Recv() == nil || core.NamedTypeName(derefType(cal.Signature.Recv().Type())) != "Pool" {
+					continue
+				}
+				switch cal.Name() {
+				case "Get":
+					if v, ok := in.(ssa.Value); ok {
+						pooled = append(pooled, v)
+					}
+				case "Put":
+					puts = true
+				}
+			}
+		}
+		if len(pooled) == 0 || !puts {
+			continue
+		}
+		n++
+		// values that are the pooled object (through type assertions)
+		isPooled := map[ssa.Value]bool{}
+		var grow func(v ssa.Value)
+		grow = func(v ssa.Value) {
+			if isPooled[v] || v.Referrers() == nil {
+				return
+			}
+			isPooled[v] = true
+			for _, r := range *v.Referrers() {
+				switch t := r.(type) {
+				case *ssa.TypeAssert:
+					grow(t)
+				case *ssa.Extract:
+					grow(t)
+				case *ssa.ChangeInterface:
+					grow(t)
+				}
+			}
+		}
+		for _, v := range pooled {
+			grow(v)
+		}
+		bad := 0
+		for _, b := range fn.Blocks {
+			for _, in := range b.Instrs {
+				call, ok := in.(*ssa.Call)
+				if !ok {
+					continue
+				}
+				cal := call.Common().StaticCallee()
+				if cal == nil || cal.Name() != "Bytes" || len(call.Common().Args) == 0 || !isPooled[call.Common().Args[0]] {
+					continue
+				}
+				// does the slice (or a reslicing) escape?
+				var escapes func(v ssa.Value, depth int) string
+				escapes = func(v ssa.Value, depth int) string {
+					if v.Referrers() == nil || depth > 4 {
+						return ""
+					}
+					for _, r := range *v.Referrers() {
+						switch t := r.(type) {
+						case *ssa.Return:
+							return "returned"
+						case *ssa.Store:
+							// stored into a Frame: the frames of one encoding are consumed before the buffer is reused, which
+							// is what codec.poolalias decides; any other store keeps the bytes beyond the function
+							if t.Val == v {
+								if _, isAlloc := t.Addr.(*ssa.Alloc); !isAlloc {
+									if f := core.FieldOf(t.Addr); f == nil || f.Name() != "buffer" {
+										return "stored"
+									}
+								}
+							}
+						case *ssa.Slice:
+							if why := escapes(t, depth+1); why != "" {
+								return why
+							}
+						case *ssa.Phi:
+							if why := escapes(t, depth+1); why != "" {
+								return why
+							}
+						case *ssa.MakeInterface:
+							if why := escapes(t, depth+1); why != "" {
+								return why
+							}
+						}
+					}
+					return ""
+				}
+				why := escapes(call, 0)
+				if why == "" {
+					// results spilled because of the deferred Put
+					for _, rs := range core.ReturnSites(fn) {
+						for _, r := range rs.Results {
+							v := r
+							for d := 0; d < 4; d++ {
+								if v == ssa.Value(call) {
+									why = "returned"
+								}
+								if sl, ok := v.(*ssa.Slice); ok {
+									v = sl.X
+									continue
+								}
+								break
+							}
+						}
+					}
+				}
+				if why != "" {
+					bad++
+					c.Report("codec.poolescape", core.FnName(fn)+"|Bytes "+why, in.Pos(), fmt.Sprintf("%s takes a buffer from a sync.Pool, puts it back, and the content slice (Bytes()) is %s: the next user of the pool overwrites the bytes the caller still holds (two encodings made one after the other: the first one is destroyed)", core.FnName(fn), why))
+				}
+			}
+		}
+		if bad == 0 {
+			c.Discharge("codec.poolescape", core.FnName(fn), fn.Pos(), "no slice of the pooled buffer's content is returned or stored")
+		}
+	}
+	c.Floor("codec.poolescape", 3)
 }
